@@ -34,7 +34,7 @@ META = dict(
                 "embeddings. Length scales 1e-12..1e6 enter through the embeddings only. Not compared (not stated by the "
                 "property): unit, validity, component labels of the results."),
     technique=("TLA+ array model (Cells.tla, C06.tla) + TLC exhaustive; spec states replayed into code; code traces "
-               "validated by TLC (C06Trace.tla); Apalache inductive invariant of the 1-d core for lines of any length (C06Core.tla)"),
+               "validated by TLC (C06Trace.tla); Apalache inductive invariant of the 1-d core for lines of any length (C06Core.tla), the same as a TLAPS proof (C06CoreProof.tla)"),
     design_ref="DESIGN.md section 7 C06",
 )
 
@@ -525,6 +525,7 @@ def run(ctx):
     # the integer core (spec/C06Core.tla): Apalache discharges the inductive invariant for lines of any length
     from .. import apalache
     apalache.run_stage(ctx, module="C06Core.tla", claim=apalache.C06_CLAIM)
+    apalache.tlaps_stage(ctx, "C06CoreProof.tla", needs=("C06Core.tla",))   # the same two facts as a checked proof
     embs = embs_for(ctx.tier, ctx.seed)
     r = ctx.model("MC_C06", f"C06_{ctx.tier}.cfg", dump=True)
     if r.ok:
